@@ -1096,6 +1096,29 @@ pub fn run(session: &Session, prop: &'static RefProp, rule: &str) -> i32 {
         }
         session.run_enum(prop, cases);
     }
+    if prop.id == "C13" && !session.stopped() {
+        // what a cell may hold does not depend on what was checked before: a function over cells of one
+        // content type is handed, legitimately, to a user of such functions, and then to a user of
+        // functions over cells of a look-alike content type (same shape, same number of union members,
+        // same field names) - the second use is refused exactly as it is refused without the first
+        let mut cases = vec![];
+        for (t1, t2, v1, v2, store) in [
+            ("mut (int|float)", "mut (int|string)", "mut int|float 1", "mut int|string 1", "c = 2.5;"),
+            ("mut (int|string)", "mut (int|float)", "mut int|string 1", "mut int|float 1", "c = \"s\";"),
+            ("mut [int|float]", "mut [int|bool]", "mut [int|float] [1]", "mut [int|bool] [1]", "c += [2.5];"),
+            ("mut struct{a: int}", "mut struct{a: string}", "mut struct{a: int} struct{a := 1}", "mut struct{a: string} struct{a := \"s\"}", "c = struct{a := 2};"),
+            ("mut (int|float|string)", "mut (int|float|bool)", "mut int|float|string 1", "mut int|float|bool 1", "c = \"s\";"),
+            ("mut ((int|float) -> int)", "mut ((int|string) -> int)", "mut (int|float) -> int (x: int|float) -> int { return 1; }", "mut (int|string) -> int (x: int|string) -> int { return 1; }", "c = (x: int|float) -> int { return 2; };"),
+        ] {
+            let decls = format!("setc := (c: {t1}) {{ {store} }}; use1 := (f: ({t1}) -> (), c: {t1}) {{ f(c); }}; use2 := (f: ({t2}) -> (), c: {t2}) {{ f(c); }}; v1 := {v1}; v2 := {v2}; ");
+            for (first, second) in [("use1(setc, v1); ", "use2(setc, v2); (*v1, *v2)"), ("use1(setc, v1); use1(setc, v1); ", "use2(setc, v2); *v2"), ("w := () { use1(setc, v1); }; w(); ", "k := () -> any { use2(setc, v2); return *v2; }; k()"), ("use1(setc, v1); ", "setc(v2); *v2"), ("use1(setc, v1); ", "g := setc; h := (f: ({t2}) -> ()) {{ }}; h(g); 1")] {
+                let second = second.replace("{t2}", t2).replace("{{", "{").replace("}}", "}");
+                cases.push(json!({"kind": "scope", "sig": "C13:acceptance-after-earlier-check", "with": format!("{decls}{first}{second}"), "without": format!("{decls}{second}")}));
+            }
+        }
+        session.set_extra("acceptance_after_earlier_check_cases", json!(cases.len()));
+        session.run_enum(prop, cases);
+    }
     if (prop.id == "C06" || prop.id == "C07" || prop.id == "C13") && !session.stopped() {
         // one function literal evaluated several times - by a maker called with different arguments, by a
         // loop - captures anew each time, also when its free names occur only inside a literal nested in it
